@@ -815,13 +815,13 @@ func (s *vC09Srv) exchange(st *vInStream, f *vC09Frame, what string) bool {
 		c.Check(len(puts) == 0 || outcome == "answered", "put-value-writes-only-valid-record-of-key", "%s: %d datastore writes although the request ended as %s", what, len(puts), outcome)
 		c.Check(len(gained) == 0, "peerstore-unchanged-by-other-requests", "%s: peerstore gained addresses for %d peers", what, len(gained))
 	default:
-		c.Check(len(puts) == 0, "read-requests-write-nothing", "%s: %d datastore writes, first %s", what, len(puts), firstKey(puts))
+		c.Check(len(puts) == 0, "read-requests-write-nothing", "%s: %d datastore writes, first %s", what, len(puts), vC09FirstKey(puts))
 		c.Check(len(gained) == 0, "peerstore-unchanged-by-other-requests", "%s: peerstore gained addresses for %d peers", what, len(gained))
 	}
 	return outcome != "reset" && !eof
 }
 
-func firstKey(es []vjds.Entry) string {
+func vC09FirstKey(es []vjds.Entry) string {
 	if len(es) == 0 {
 		return ""
 	}
